@@ -4,13 +4,17 @@ From Coq Require Import List NArith.
 From LV Require Import Dom.ReactiveView Dom.ReactiveProofs.
 Import ListNotations.
 
-(** for every reactive view program of the grammar, every initial signal values, every history of
-    signal writes interleaved with every order of task polls: whenever no task is ready, what is on
-    screen is the from-scratch render of the current signal values *)
+(** for every reactive view program of the grammar (dynamic text / attribute / class / style,
+    conditionals, async leaves), every initial signal values, every history of signal writes and
+    future completions (any order, also an older future after a newer one) interleaved with every
+    order of task polls: whenever no task is ready and no async leaf is waiting for the future of its
+    last run, what is on screen is the from-scratch render of the current signal values.
+    Keyed lists, Suspense boundaries, ErrorBoundary and owner-disposal events are not in this model
+    (keyed lists inside reactive views are driven and judged by the oracle only). *)
 Theorem C04_reactive_view_converges :
   forall r s0 es,
     let st := run_events (mount r s0) es in
-    idle st = true -> shape_of (root st) = fresh (sigs (ev st)) r.
+    idle st = true -> settled (root st) = true -> shape_of (root st) = fresh (sigs (ev st)) r.
 Proof. exact reactive_view_converges. Qed.
 Print Assumptions C04_reactive_view_converges.
 
@@ -35,6 +39,7 @@ Theorem C04_untouched_parts_unmutated_partial :
     match e with
     | EWrite _ _ => True
     | EPoll k => due_in (picked st k) (root st) = false
+    | EComplete _ _ => False
     end ->
     nodes (root (step st e)) = nodes (root st) /\ shape_of (root (step st e)) = shape_of (root st).
 Proof. exact untouched_parts_unmutated_partial. Qed.
